@@ -1594,13 +1594,40 @@ impl StoreWorkload {
                 // refusals: one input rebuilt with another k or the other strand mode
                 if rng.chance(30) {
                     let bad = newname("x");
-                    let (bk, bss) = if rng.chance(50) { (if k == 63 { 61 } else { k + 2 }, ss) } else { (k, !ss) };
+                    // another k: a neighbour, one stored in the other integer width, or any other valid k
+                    let (bk, bss) = if rng.chance(50) {
+                        let other = match rng.below(4) {
+                            0 => if k == 63 { 61 } else { k + 2 },
+                            1 => if k == 5 { 7 } else { k - 2 },
+                            2 => if k <= 31 { *rng.pick(&[33usize, 41, 63]) } else { *rng.pick(&[31usize, 21, 5]) },
+                            _ => {
+                                let mut o = pick_k(&mut rng);
+                                while o == k {
+                                    o = pick_k(&mut rng);
+                                }
+                                o
+                            }
+                        };
+                        (other, ss)
+                    } else {
+                        (k, !ss)
+                    };
                     let extra_sample = rng.below(n);
                     ops.push(Op::Build { out: bad.clone(), samples: vec![extra_sample], k: bk, single_strand: bss, list: false, threads: 1 });
                     let good: Vec<String> = files.iter().filter(|(_, v)| !v.contains(&sname(extra_sample))).map(|(k, _)| k.clone()).collect();
                     if !good.is_empty() {
-                        let mut ins = vec![rng.pick(&good).clone()];
-                        let at = rng.below(2);
+                        let first = rng.pick(&good).clone();
+                        let mut ins = vec![first.clone()];
+                        // sometimes a third input, so that the mismatching file can come first, in the
+                        // middle or last among files that do agree with each other
+                        if rng.chance(40) {
+                            let second: Vec<&String> = good.iter().filter(|g| files[*g].iter().all(|nm| !files[&first].contains(nm))).collect();
+                            if !second.is_empty() {
+                                let g2 = (*rng.pick(&second)).clone();
+                                ins.push(g2);
+                            }
+                        }
+                        let at = rng.below(ins.len() + 1);
                         ins.insert(at, bad);
                         let out = if rng.chance(50) { newname("r") } else { rng.pick(&good).clone() };
                         ops.push(Op::Merge { out, inputs: ins });
